@@ -5,6 +5,8 @@ Three parties per generated case (1-3 config loads + every lookup path of length
   * the mechanism model extracted from coq/Config/ConfigDefs.v (ocaml/config_driver.ml), defect setting as_is,
   * an independent reference written here from the property text (Ref*), which abstains where the text is silent.
 The 'chain' family (gen_chain) runs the same three parties on inheritance chains of 2 .. ~2000 classes with chosen lookup paths.
+The 'held' family (HeldCase) runs them on HISTORIES: config values are obtained and kept, further config texts are loaded, and the kept
+values are asked again after every load - next to values navigated afresh to the same class (see the section "config values kept across loads").
 """
 import json, os, re, sys
 import vcommon as V
@@ -664,6 +666,10 @@ def ref_chunk(ref, path, flags):
     c = ref.root
     for nm in path:
         c = ref.lookup(c, nm) if c is not None else None
+    return ref_chunk_obj(c, flags)
+
+
+def ref_chunk_obj(c, flags):
     nm = lambda o: o.name if o is not None else ""
     if c is None:
         return ["[,true,false,false,false,false,0,\"\",[]]"]
@@ -732,6 +738,9 @@ class Case:
             at = {p_: k for k, p_ in enumerate(self.paths)}
             self.parent = [at.get(p_[:-1], -1) if p_ else -1 for p_ in self.paths]
 
+    def nres(self):
+        return len(self.paths)
+
     def impl_line(self):
         chunks = ",".join("%d:%s" % (p, V.hx(chunk_sqf(path, self.flags))) for path, p in zip(self.paths, self.parent))
         return ",".join(V.hx(t) for t in self.texts) + "\t" + chunks
@@ -762,6 +771,391 @@ def dec(h):
     return h, None
 
 
+# ------------------------------------------------------------------ config values kept across loads ("held" family)
+# "inheritsFrom returns the base class, configHierarchy the enclosing classes, count/select enumerate the class's own entries ..." are
+# statements about the CLASS a config value denotes, for all histories ("redefinition across several loaded files").  A script may obtain
+# a config value, keep it (variable, array element, namespace) and ask it again after further config texts were loaded; the answers must be
+# those of the tree as it is then.  The cases above navigate every value afresh after the last load.  This family keeps values:
+#   history  = loads 1..f through the parser API; a script obtains and keeps config values and observes them; then for every further
+#              load: the text is loaded (route 'parse': configparse__ inside the same script; route 'api': through the parser API between
+#              two scripts, the way a second sqfvm_load_config arrives between two sqfvm_call) and every kept value is observed again
+#   kept     = every class of the tree (up to a cap) by its own path, classes and entries reached through an inheriting class, and the
+#              same classes obtained as `parent select i`, `configHierarchy child select j`, `inheritsFrom derived`,
+#              `"true" configClasses parent select j`; configFile itself, value entries, one configNull
+#   storage  = private variable | element of a private array | global variable | missionNamespace setVariable | element of a global array
+#   observed = the usual observers plus, per kept value: the configHierarchy of every class reached by repeating inheritsFrom (identifies
+#              the base, not only its name) and the configHierarchy of `value >> name` for every name in play; and the same for the value
+#              navigated afresh along the own path of the class, and `kept == fresh`
+# Verdicts: (1) nothing hangs or crashes; (2) where the property text decides (reference semantics: a kept value denotes the class object,
+# whatever was loaded since) the observations of the kept value must equal it; (3) METAMORPHIC, implementation only, also where the text does
+# not say WHICH base counts (re-opened with another base, a first base, an unresolvable or cycle-closing base): a kept value and the value
+# navigated afresh to the same class (own entries all the way: re-opening merges, so it is the same class) must answer every observer alike
+# and compare equal; (4) implementation == extracted model (a config value is a container id there; the operators read the host of the
+# moment they are applied).
+HELD_ROUTES = (("parse", "local"), ("parse", "array"), ("parse", "global"), ("api", "global"), ("api", "namespace"), ("api", "garray"))
+HELD_KINDS = ("other_base", "first_base", "same_base", "no_clause", "shadow", "cycle", "unresolved", "base_rebound", "entries",
+              "deleted", "grow")
+HELD_IDENTS = ("A", "B", "Cc", "Base", "Sub2", "a", "Veh", "Land", "Air", "K1", "M_2", "Plain", "Car", "Q7", "r", "Tank", "Wheeled")
+NULL_LINE = "[,true,false,false,false,false,0,\"\",[]]"
+
+OBS_DEF = ("private _obs = { private _c = _this select 0; private _names = _this select 1; "
+           "diag_log str [_c, isNull _c, isClass _c, isNumber _c, isText _c, isArray _c, getNumber _c, getText _c, getArray _c]; "
+           "if (!isNull _c) then { private _s = []; for \"_i\" from -1 to (count _c) do { _s pushBack (_c select _i) }; "
+           "diag_log str [configName _c, count _c, inheritsFrom _c, configHierarchy _c, _s]; "
+           "private _ch = []; private _b = inheritsFrom _c; private _k = 0; "
+           "while {!(isNull _b) && {_k < 40}} do { _ch pushBack (configHierarchy _b); _b = inheritsFrom _b; _k = _k + 1 }; "
+           "diag_log str _ch; private _l = []; "
+           "{ private _e = _c >> _x; _l pushBack (if (isNull _e) then {[]} else {configHierarchy _e}) } forEach _names; "
+           "diag_log str _l; }; }; ")
+
+
+def own_path(obj):
+    out = []
+    while obj.parent is not None:
+        out.append(obj.name)
+        obj = obj.parent
+    return tuple(reversed(out))
+
+
+def attached(ref, obj):
+    """is obj the entry that its own path (own entries all the way) denotes now?"""
+    c = ref.root
+    for nm in own_path(obj):
+        has, o = ref.own(c, nm)
+        if not has or o is None:
+            return False
+        c = o
+    return c is obj
+
+
+def hier_of(obj):
+    return "[" + ",".join(("config/bin",) + own_path(obj)) + "]"
+
+
+def ref_held_lines(ref, c, names):
+    if c is None:
+        return [NULL_LINE]
+    chain, b, k = [], c.base, 0
+    while b is not None and k < 40:
+        chain.append(hier_of(b))
+        b, k = b.base, k + 1
+    looks = []
+    for n in names:
+        e = ref.lookup(c, n)
+        looks.append(hier_of(e) if e is not None else "[]")
+    return ref_chunk_obj(c, "") + ["[" + ",".join(chain) + "]", "[" + ",".join(looks) + "]"]
+
+
+def ref_resolve(ref, path):
+    c = ref.root
+    for nm in path:
+        c = ref.lookup(c, nm) if c is not None else None
+    return c
+
+
+def ref_keep(ref, deriv, path):
+    """the object a keep expression yields according to the reference semantics (None = configNull)"""
+    c = ref_resolve(ref, path)
+    if deriv == "P" or c is None:
+        return c
+    k, j = deriv[0], int(deriv[1:] or 0)
+    if k == "S":
+        return c.slots[j][1] if 0 <= j < len(c.slots) else None
+    if k == "I":
+        return c.base
+    if k == "H":
+        up = []
+        while c is not None:
+            up.append(c)
+            c = c.parent
+        up.reverse()
+        return up[j] if j < len(up) else None
+    if k == "C":
+        cl = [o for _, o in c.slots if o is not None and o.kind == "class"]
+        return cl[j] if j < len(cl) else None
+    raise ValueError(deriv)
+
+
+def sqf_path(path):
+    return "configFile" + "".join(' >> "%s"' % p for p in path)
+
+
+def keep_expr(deriv, path):
+    e = sqf_path(path)
+    if deriv == "P":
+        return "(%s)" % e
+    k, j = deriv[0], deriv[1:]
+    if k == "S":
+        d = "_t select %s" % j
+    elif k == "I":
+        d = "inheritsFrom _t"
+    elif k == "H":
+        d = "private _q = configHierarchy _t; if (%s < count _q) then {_q select %s} else {configNull}" % (j, j)
+    else:
+        d = "private _q = \"true\" configClasses _t; if (%s < count _q) then {_q select %s} else {configNull}" % (j, j)
+    return "(call { private _t = %s; if (isNull _t) then {configNull} else {%s} })" % (e, d)
+
+
+STORE = {"local": ("", "private _h%d = %s; ", "_h%d"),
+         "array": ("private _hs = []; ", "_hs pushBack %s; ", "(_hs select %d)"),
+         "global": ("", "c15h%d = %s; ", "c15h%d"),
+         "namespace": ("", "missionNamespace setVariable [\"c15n%d\", %s]; ", "(missionNamespace getVariable \"c15n%d\")"),
+         "garray": ("c15hs = []; ", "c15hs pushBack %s; ", "(c15hs select %d)")}
+
+
+def all_objects(ref, cap_depth=4):
+    """every attached entry (classes and values) with its own path, declaration order, root first"""
+    out = []
+
+    def walk(c, d):
+        out.append(c)
+        if d < cap_depth:
+            for _, o in c.slots:
+                if o is not None:
+                    walk(o, d + 1)
+    walk(ref.root, 0)
+    return out
+
+
+def choose_keeps(rng, ref, names, use_classes_op):
+    """which values the script keeps: [deriv, path] per slot (the slot number is the position)"""
+    objs = all_objects(ref)
+    classes = [o for o in objs if o.kind == "class" and o is not ref.root]
+    values = [o for o in objs if o.kind == "value"]
+    keeps = [["P", []]]                                              # configFile itself
+    for o in (classes if len(classes) <= 9 else rng.sample(classes, 9)):
+        keeps.append(["P", list(own_path(o))])
+    for o in rng.sample(values, min(2, len(values))):
+        keeps.append(["P", list(own_path(o))])
+    extra = []
+    for o in classes:
+        me = own_path(o)
+        par = o.parent
+        if par is not None:
+            i = par.index.get(o.name)
+            if i is not None and par.slots[i][1] is o:
+                extra.append(["S%d" % i, list(own_path(par))])
+            cl = [x for _, x in par.slots if x is not None and x.kind == "class"]
+            if use_classes_op and o in cl:
+                extra.append(["C%d" % cl.index(o), list(own_path(par))])
+        kids = [x for _, x in o.slots if x is not None]
+        if kids:
+            extra.append(["H%d" % len(me), list(own_path(rng.choice(kids)))])
+        if o.base is not None:
+            extra.append(["I", list(me)])                             # the value inheritsFrom hands out, kept
+            # entries of the base chain reached through this class
+            b, seen = o.base, set(o.index)
+            k = 0
+            while b is not None and k < 50:
+                for nm, x in b.slots:
+                    if x is not None and nm not in seen:
+                        extra.append(["P", list(me) + [nm]])
+                    seen.add(nm)
+                b, k = b.base, k + 1
+    for e in rng.sample(extra, min(7, len(extra))):
+        keeps.append(e)
+    keeps.append(["P", [rng.choice(names), "zz"]])                    # usually configNull
+    return keeps
+
+
+class HeldCase:
+    """a history: loads[:first] - keep - observe - (load - observe)*"""
+
+    def __init__(self, kind, loads, names, held, texts=None, rng=None):
+        self.kind, self.loads, self.names, self.held = kind, loads, names, held
+        self.texts = texts if texts is not None else [render_load(l, rng) for l in loads]
+        self.first, self.route, self.keeps = held["first"], tuple(held["route"]), held["keeps"]
+        self.obs_names = held["obs_names"]
+        self.given = True
+        self.plan()
+
+    def plan(self):
+        """walks the reference semantics through the history: per observation the expected lines (None where the text is silent or the
+        kept entry was deleted since), the own path for the value navigated afresh (None: the class is not reachable by own entries any
+        more) and whether the class's base was re-bound since the value was kept"""
+        ref = Ref()
+        for l in self.loads[:self.first]:
+            ref.load(l)
+        self.objs = [ref_keep(ref, d, tuple(p)) for d, p in self.keeps]
+        base_then = [o.base if o is not None else None for o in self.objs]
+        self.silent_at_keep = sorted(set(ref.silent))
+        self.obs = []          # dicts: mark, slot, stage, fresh, expected, rebound
+        self.stages = []       # per stage the marks
+        mark = 0
+        for stage in range(self.first, len(self.loads) + 1):
+            if stage > self.first:
+                ref.load(self.loads[stage - 1])
+            decided = not ref.silent
+            clash = any(s_ in ("a name used both as class and as value", "redefinition after delete") for s_ in ref.silent)
+            marks = []
+            for slot, o in enumerate(self.objs):
+                att = o is not None and attached(ref, o)
+                fresh = list(own_path(o)) if att and not clash else None
+                exp = None
+                if decided and (o is None or att):
+                    exp = ref_held_lines(ref, o, self.obs_names)
+                    if fresh is not None:
+                        exp = exp + ['["=",true]'] + exp
+                rebound = None
+                if o is not None and o.base is not base_then[slot]:
+                    was, now = base_then[slot], o.base
+                    rebound = ("first base" if was is None else "base removed" if now is None else
+                               "same name, other class" if was.name == now.name else "other base")
+                self.obs.append({"mark": mark, "slot": slot, "stage": stage, "fresh": fresh, "expected": exp, "rebound": rebound,
+                                 "loads_since_kept": stage - self.first})
+                marks.append(mark)
+                mark += 1
+            self.stages.append(marks)
+        self.silent = sorted(set(ref.silent))
+        self.ref = ref
+        # items of the protocol
+        way, store = self.route
+        init, keep_fmt, access = STORE[store]
+        names_sqf = "[" + ",".join(sqf_quote(n) for n in self.obs_names) + "]"
+        names_ser = ".".join(V.hx(n) for n in self.obs_names) or "-"
+        ser_path = lambda p: ".".join(V.hx(x) for x in p) or "-"
+
+        def obs_sqf(marks):
+            out = ""
+            for m in marks:
+                ob = self.obs[m]
+                v = access % ob["slot"]
+                out += "diag_log str [\"#\", %d]; [%s, %s] call _obs; " % (m, v, names_sqf)
+                if ob["fresh"] is not None:
+                    out += "private _f = %s; diag_log str [\"=\", %s == _f]; [_f, %s] call _obs; " % (sqf_path(ob["fresh"]), v, names_sqf)
+            return out
+
+        def obs_ser(marks):
+            return ["o %d %s %s %d" % (self.obs[m]["slot"], "~" if self.obs[m]["fresh"] is None else ser_path(self.obs[m]["fresh"]),
+                                       names_ser, m) for m in marks]
+
+        keep_sqf = init + "".join(keep_fmt % ((k, keep_expr(d, p)) if "%d" in keep_fmt else (keep_expr(d, p),))
+                                  for k, (d, p) in enumerate(self.keeps))
+        keep_ser = ["k %d %s %s" % (k, d, ser_path(p)) for k, (d, p) in enumerate(self.keeps)]
+        self.items = []        # (kind, implementation text, model text)
+        sqf, ser = OBS_DEF + keep_sqf + obs_sqf(self.stages[0]), keep_ser + obs_ser(self.stages[0])
+        for k in range(self.first, len(self.loads)):
+            one = "%d %s" % (len(self.loads[k]), " ".join(ser_node(x) for x in self.loads[k]))
+            if way == "parse":
+                sqf += "configparse__ %s; " % sqf_quote(self.texts[k]) + obs_sqf(self.stages[k - self.first + 1])
+                ser += ["p " + one] + obs_ser(self.stages[k - self.first + 1])
+            else:
+                self.items.append(("K", sqf, ";".join(ser)))
+                self.items.append(("L", self.texts[k], one))
+                sqf, ser = OBS_DEF + obs_sqf(self.stages[k - self.first + 1]), obs_ser(self.stages[k - self.first + 1])
+        self.items.append(("K", sqf, ";".join(ser)))
+
+    def nres(self):
+        return len(self.items)
+
+    def impl_line(self):
+        return ",".join(V.hx(t) for t in self.texts[:self.first]) + "\t" + ",".join("%s:%s" % (k, V.hx(t)) for k, t, _ in self.items)
+
+    def model_line(self, defects):
+        return defects + "\t" + ser_loads(self.loads[:self.first]) + "\t" + ",".join("%s:%s" % (k, m) for k, _, m in self.items)
+
+    def replay(self):
+        return {"kind": self.kind, "loads": self.loads, "names": self.names, "texts": self.texts, "held": self.held,
+                "history": [("load %d through the parser API" % k) for k in range(self.first)] +
+                           [("script: " + t) if kd == "K" else ("load through the parser API: " + t) for kd, t, _ in self.items]}
+
+
+def held_blocks(lines):
+    """the diag_log lines of a script -> {mark: (lines of the kept value, equality line or None, lines of the fresh value)}"""
+    out, cur = {}, None
+    for ln in lines:
+        m = re.match(r'^\["#",(\d+)\]$', ln)
+        if m:
+            cur = [[], None, []]
+            out[int(m.group(1))] = cur
+        elif cur is None:
+            out.setdefault(-1, [[], None, []])[0].append(ln)
+        elif ln.startswith('["=",') and cur[1] is None:
+            cur[1] = ln
+        else:
+            cur[2 if cur[1] is not None else 0].append(ln)
+    return out
+
+
+def make_held(rng, kind, loads, names, route, first=None, obs_names=None):
+    """a history over the given loads (at least two): what is kept is chosen from the tree as it stands after `first` loads"""
+    first = first if first is not None else rng.randint(1, len(loads) - 1)
+    ref = Ref()
+    for l in loads[:first]:
+        ref.load(l)
+    keeps = choose_keeps(rng, ref, names, not has_delete(loads))
+    if obs_names is None:
+        obs_names = list(names)[:9]
+    held = {"first": first, "route": list(route), "keeps": keeps, "obs_names": list(obs_names)}
+    return HeldCase(kind, loads, names, held, None, rng)
+
+
+def gen_held_scenario(rng, rk, depth):
+    """one re-binding kind, spelled out: classes B1, B2, X (: B1 or no base), Y : X inside `depth` holder classes; the second load does
+    what `rk` says to X (or to its base), an optional third load does one more thing"""
+    G, H, B1, B2, X, Y, OUTER = rng.sample(HELD_IDENTS, 7)
+    C = lambda name, base, body: ["C", name, base, body, {"decl": False}]
+    num = lambda: ["N", rng.randint(1, 999), "d"]
+    scope = [G, H][:depth]
+
+    def wrap(nodes):
+        for h in reversed(scope):
+            nodes = [C(h, None, nodes)]
+        return nodes
+
+    def pad(m):
+        return [C("N%d_%d" % (rng.randint(0, 99), k), None, [["F", "v", num()]] if rng.random() < 0.5 else []) for k in range(m)]
+
+    b1 = C(B1, None, [["F", "x", num()], ["F", "txt", ["S", rng.choice(["land", "one", "b 1"]), "dq"]], ["F", "list", gen_array(rng)]])
+    b2 = C(B2, None, [["F", "x", num()], ["F", "y", num()], ["F", "list", gen_array(rng)], C("Inner", None, [["F", "w", num()]])])
+    has_base = rk in ("other_base", "same_base", "shadow", "unresolved", "base_rebound", "deleted") or \
+        (rk in ("no_clause", "cycle", "entries", "grow") and rng.random() < 0.6)
+    xbody = [st for st in ([["F", "seats", num()]], [C("Sub", None, [["F", "w", num()]])], [["A", "list", gen_array(rng)]])
+             if rng.random() < 0.6 for st in st]
+    x = C(X, B1 if has_base else None, xbody)
+    y = C(Y, X, [["F", "y", num()]] if rng.random() < 0.5 else [])
+    if rk == "shadow":      # B1 is a class of an outer scope first; the second load gives the enclosing class a B1 of its own
+        load1 = [b1] + wrap([b2, x, y]) if depth else [b1, b2, x, y]
+    else:
+        load1 = wrap([b1, b2, x, y])
+    if rng.random() < 0.3:
+        load1 = [C(OUTER, None, [["F", "x", num()]])] + load1
+
+    def step(kind):
+        if kind == "other_base":
+            return wrap([C(X, B2, [["F", "late", num()]] if rng.random() < 0.4 else [])])
+        if kind == "first_base":
+            return wrap([C(X, rng.choice([B1, B2]), [])])
+        if kind == "same_base":
+            return wrap([C(X, B1, [["F", "late", num()]])])
+        if kind == "no_clause":
+            return wrap([C(X, None, [["F", "late", num()]])])
+        if kind == "shadow":
+            return wrap([C(B1, None, [["F", "x", num()], ["F", "q", num()]]), C(X, B1, [])])
+        if kind == "cycle":
+            return wrap([C(X, Y, [])])
+        if kind == "unresolved":
+            return wrap([C(X, "Nope9", [])])
+        if kind == "base_rebound":
+            return wrap([C(B1, B2, [])])
+        if kind == "entries":
+            return wrap([C(X, None, [["F", "y", num()], ["A", "list", gen_array(rng)], ["D", "txt"]]), C(B1, None, [["F", "q", num()]])])
+        if kind == "deleted":
+            return wrap([["D", X]])
+        return pad(rng.choice([1, 3, 8, 20, 40])) if rng.random() < 0.6 else wrap(pad(rng.choice([1, 3, 8, 20])))
+
+    if rk == "shadow" and depth == 0:
+        rk = "other_base"
+    loads = [load1, step(rk)]
+    if rng.random() < 0.5:
+        loads[1] = loads[1] + pad(rng.choice([1, 2, 5, 12, 30]))     # the tree grows while the class is re-opened
+    if rng.random() < 0.55:
+        nxt = rng.choice(["other_base", "same_base", "no_clause", "base_rebound", "entries", "grow", "first_base", "unresolved"])
+        loads.append(step(nxt))
+    names = [G, H][:depth] + [B1, B2, X, Y, "Sub", "Inner", "x", "y", "list", "txt", "seats", "late", "q", "w", "zz"]
+    return loads, names, rk
+
+
 BAD = ("TIMEOUT", "HANG", "CRASH", "EXIT", "EXCEPTION", "OOM", "LOST", "HARNESS")
 
 
@@ -770,7 +1164,7 @@ def explain(case, impl_parsed, drv):
     (purely informative: names the proposed fix that is missing from the tree under test)"""
     settings = ["%d%d%d%d" % (a, b, c, d) for a in (0, 1) for b in (0, 1) for c in (0, 1) for d in (0, 1)]
     rc, outs, err = V.run_lines([drv], [case.model_line(st) for st in settings], timeout=600)
-    n = len(case.paths)
+    n = case.nres()
     hits = [st for st, o in zip(settings, outs) if parse_result(o, n) == impl_parsed]
     if not hits:
         return ""
@@ -779,6 +1173,127 @@ def explain(case, impl_parsed, drv):
         return ""
     on = [SWITCHES[k] for k in range(4) if best[k] == "1"]
     return " [the implementation behaves exactly like the model with these defect switches on: " + "; ".join(on) + "]"
+
+
+def judge_held(c, il, ml, rep, found, stats, distinct):
+    """verdicts for one history (see the section "config values kept across loads")"""
+    hs = stats["held_family"]
+    inc = lambda d, k, n=1: d.__setitem__(k, d.get(k, 0) + n)
+    hs["histories"] += 1
+    inc(hs["by_route"], "%s/%s" % c.route)
+    inc(hs["by_scenario"], c.kind.split(":", 1)[1] if ":" in c.kind else c.kind)
+    hs["kept_values"] += len(c.keeps)
+    for d, p in c.keeps:
+        inc(hs["kept_by_provenance"], {"P": ">> path", "S": "select", "I": "inheritsFrom", "H": "configHierarchy select",
+                                       "C": "configClasses select"}[d[0]])
+    n = c.nres()
+    pi, pm = parse_result(il, n), parse_result(ml, n)
+    if pm is None:
+        found.append(("machinery", "MODEL driver produced no result (machinery bug)",
+                      dict(rep, model=ml[:2000], broken="ocaml/config_driver.ml"), False, None, None))
+        return
+    if pi is None:
+        found.append(("lost", "implementation harness lost the case: " + il[:200], dict(rep, impl=il[:2000]), True, None, None))
+        return
+    iloads, ich = pi
+    mloads, mch = pm
+    stats["loads_with_warnings"] += sum(1 for x in iloads if x.startswith("ok:") and x != "ok:-")
+    # 1. safety
+    for k, st in enumerate(iloads):
+        if st.startswith(BAD):
+            found.append(("load:" + st.split(":")[0], "loading config text %d does not return normally: %s" % (k, st),
+                          dict(rep, impl_loads=iloads, model_loads=mloads), True, c, pi))
+            return
+    for (kd, text, _), ir in zip(c.items, ich):
+        if ir.startswith(BAD) or ir.startswith(("NORUN", "PARSEFAIL")):
+            what = ("loading a further config text while config values are kept" if kd == "L" else
+                    "a script that keeps config values across loads and asks them again")
+            found.append(("held:" + ir.split(":")[0], "%s does not return normally: %s" % (what, ir[:60]),
+                          dict(rep, item=text[:4000], impl=ir[:300], model_loads=mloads), True, c, pi))
+            return
+    # decode the scripts' output into observation blocks
+    iblocks, mblocks = {}, {}
+    for (kd, _, _), ir, mr in zip(c.items, ich, mch):
+        if kd != "K":
+            continue
+        di, dm = dec(ir), dec(mr)
+        if isinstance(di[0], list):
+            iblocks.update(held_blocks(di[0]))
+        if isinstance(dm[0], list):
+            mblocks.update(held_blocks(dm[0]))
+    flat = lambda b: None if b is None else b[0] + ([b[1]] if b[1] is not None else []) + b[2]
+    fired = False
+    nontrivial = 0
+    for ob in c.obs:
+        stats["lookups"] += 1
+        hs["observations_of_kept_values"] += 1
+        inc(hs["observations_after_1_2_3_loads"], str(ob["loads_since_kept"]))
+        if ob["rebound"]:
+            inc(hs["observations_where_the_base_was_rebound_since_kept"], ob["rebound"])
+        o = c.objs[ob["slot"]]
+        if o is not None and ob["fresh"] is None and ob["expected"] is None and not attached(c.ref, o):
+            hs["kept_entries_deleted_since"] += 1
+        ib, mb = iblocks.get(ob["mark"]), mblocks.get(ob["mark"])
+        if ib is not None and ib[0] and not ib[0][0].startswith("[,true"):
+            stats["lookups_found"] += 1
+            nontrivial += 1
+        if fired:
+            continue
+        d, p = c.keeps[ob["slot"]]
+        how = {"P": "%s", "S": "(%s) select " + d[1:], "I": "inheritsFrom (%s)", "H": "configHierarchy (%s) select " + d[1:],
+               "C": '"true" configClasses (%s) select ' + d[1:]}[d[0]] % sqf_path(p)
+        where = "the value of `%s` kept (%s) after load %d and asked after load %d" % (how, c.route[1], c.first, ob["stage"])
+        # 2. the property text decides
+        if ob["expected"] is not None:
+            hs["decided_by_the_reference"] += 1
+            if mb is not None and flat(mb) != ob["expected"]:
+                found.append(("machinery", "MODEL disagrees with the reference semantics written from the property text (machinery bug)",
+                              dict(rep, observation=ob, expected=ob["expected"], model=flat(mb), broken="ConfigDefs vs Ref in checks/C15.py"),
+                              False, None, None))
+                fired = True
+                continue
+            if flat(ib) != ob["expected"]:
+                found.append(("held:oracle", "%s: the observations differ from what the property demands of the class it denotes" % where,
+                              dict(rep, observation=ob, expected=ob["expected"], impl=flat(ib), model=flat(mb)), True, c, pi))
+                fired = True
+                continue
+        # 3. kept value against the value navigated afresh to the same class (implementation only)
+        if ob["fresh"] is not None:
+            hs["kept_vs_fresh_pairs"] += 1
+            if ob["expected"] is None:
+                hs["kept_vs_fresh_pairs_where_the_text_is_silent"] += 1
+            if ib is None or ib[1] != '["=",true]' or ib[0] != ib[2]:
+                diff = "" if ib is None else next(("; first difference: kept %s / fresh %s" % (a, b) for a, b in zip(ib[0], ib[2]) if a != b), "")
+                found.append(("held:fresh", "%s answers differently from `%s` navigated at that moment - the same class, own entries all the way%s"
+                              % (where, sqf_path(ob["fresh"]), diff[:700]),
+                              dict(rep, observation=ob, kept=None if ib is None else ib[0], equal=None if ib is None else ib[1],
+                                   fresh=None if ib is None else ib[2], model=flat(mb), silent=c.silent,
+                                   oracle="metamorphic, implementation only"), True, c, pi))
+                fired = True
+                continue
+    distinct.add((tuple(c.texts) + (json.dumps(c.held, sort_keys=True),), nontrivial > 1))
+    if fired:
+        return
+    # 4. correspondence
+    if iloads != mloads:
+        found.append(("corr:loads", "implementation and model disagree on the loads (status / warning codes)",
+                      dict(rep, impl_loads=iloads, model_loads=mloads, silent=c.silent,
+                           broken="correspondence ConfigDefs.load vs config_parser.cpp/confighost.h"), False, c, pi))
+        return
+    for (kd, text, _), ir, mr in zip(c.items, ich, mch):
+        if ir != mr:
+            found.append(("corr:held", "implementation and model disagree on a history with kept config values (%s)"
+                          % ("a load between two scripts" if kd == "L" else "a script"),
+                          dict(rep, item=text[:4000], impl=dec(ir), model=dec(mr), silent=c.silent,
+                               broken="correspondence ConfigDefs.op_* / load vs ops_config.cpp/confighost.h (a config value = a container id)"),
+                          False, c, pi))
+            return
+
+
+def make_case(r, kind, rng):
+    if r.get("held"):
+        return HeldCase(kind, r["loads"], r["names"], r["held"], r.get("texts"), rng)
+    return Case(kind, r["loads"], r["names"], r.get("texts"), rng, r.get("paths"))
 
 
 def main(replay=None):
@@ -792,13 +1307,13 @@ def main(replay=None):
     cases = []
     if replay:
         r = json.load(open(replay))["replay"]
-        cases.append(Case(r.get("kind", "replay"), r["loads"], r["names"], r.get("texts"), rng, r.get("paths")))
+        cases.append(make_case(r, r.get("kind", "replay"), rng))
     else:
         cdir = os.path.join(V.VERIF, "corpus", PID)
         if os.path.isdir(cdir):
             for fn in sorted(os.listdir(cdir)):
                 r = json.load(open(os.path.join(cdir, fn)))
-                cases.append(Case("corpus:" + fn, r["loads"], r["names"], r.get("texts"), rng, r.get("paths")))
+                cases.append(make_case(r, "corpus:" + fn, rng))
         nreg, nwild = (3000, 1500) if thorough else (170, 80)
         for i in range(nreg):
             loads, names = gen_case(rng, "regular")
@@ -816,6 +1331,37 @@ def main(replay=None):
         for lo, hi in ((34, 48), (130, 300), (1026, 2100)):      # in every run: only the root and the far end define anything
             loads, names, paths = gen_chain(rng, rng.randint(lo, hi), q=0.0)
             cases.append(Case("chain", loads, names, None, rng, paths))
+        # ---- histories: values kept across loads.  Every re-binding kind at every nesting depth, the routes taken in turn (the starting
+        # route moves with the seed), then histories over the grammar / shadow / short-chain generators
+        rot = rng.randrange(len(HELD_ROUTES))
+        for rep in range(6 if thorough else 1):
+            for rk in HELD_KINDS:
+                for depth in (0, 1, 2):
+                    loads, names, rk2 = gen_held_scenario(rng, rk, depth)
+                    cases.append(make_held(rng, "held:" + rk2, loads, names, HELD_ROUTES[rot % len(HELD_ROUTES)], obs_names=names))
+                    rot += 1
+        for i in range(400 if thorough else 36):
+            profile = "wild" if i % 3 == 2 else "regular"
+            for _ in range(50):
+                loads, names = gen_case(rng, profile)
+                if len(loads) >= 2:
+                    break
+            if len(loads) >= 2:
+                cases.append(make_held(rng, "held:" + profile, loads, names, HELD_ROUTES[rot % len(HELD_ROUTES)]))
+                rot += 1
+        for i in range(60 if thorough else 8):
+            loads, names = gen_shadow(rng)
+            cases.append(make_held(rng, "held:shadow2", loads, names, HELD_ROUTES[rot % len(HELD_ROUTES)]))
+            rot += 1
+        for i in range(40 if thorough else 6):
+            for _ in range(50):
+                loads, names, paths = gen_chain(rng, rng.randint(2, 14))
+                if len(loads) >= 2:
+                    break
+            if len(loads) >= 2:
+                onames = sorted({p_[-1] for p_ in paths if p_})[:14]
+                cases.append(make_held(rng, "held:chain", loads, names, HELD_ROUTES[rot % len(HELD_ROUTES)], obs_names=onames))
+                rot += 1
 
     ilines = [c.impl_line() for c in cases]
     rc, impl, err = V.run_lines_parallel([himpl], ilines, timeout=3000)
@@ -828,10 +1374,18 @@ def main(replay=None):
              "model_predicts_ub_or_hang": 0, "loads_with_warnings": 0,
              "chain_family": {"longest_chain": 0, "cases_by_chain_length": {}, "lookups_by_distance_to_nearest_definition": {},
                        "lookups_of_entries_no_class_of_the_chain_has": 0, "appends_by_distance_to_inherited_array": {},
-                       "lookups_through_two_chains": 0}}
+                       "lookups_through_two_chains": 0},
+             "held_family": {"histories": 0, "by_route": {}, "by_scenario": {}, "kept_values": 0, "kept_by_provenance": {},
+                             "observations_of_kept_values": 0, "observations_after_1_2_3_loads": {},
+                             "observations_where_the_base_was_rebound_since_kept": {}, "decided_by_the_reference": 0,
+                             "kept_vs_fresh_pairs": 0, "kept_vs_fresh_pairs_where_the_text_is_silent": 0,
+                             "kept_entries_deleted_since": 0}}
     for c, il, ml in zip(cases, impl, model):
         kinds[c.kind.split(":")[0]] = kinds.get(c.kind.split(":")[0], 0) + 1
         rep = c.replay()
+        if isinstance(c, HeldCase):
+            judge_held(c, il, ml, rep, found, stats, distinct)
+            continue
         n = len(c.paths)
         pi, pm = parse_result(il, n), parse_result(ml, n)
         if pm is None:
@@ -966,13 +1520,36 @@ def main(replay=None):
                        "classes, else from the classes at distance 1,2,3,7,8,9,15,16,17,31,32,33,...,2047,2048,2049 from the root and from up to three "
                        "defining classes plus random ones, for every entry name in play and one absent name; same observers and the same three verdicts "
                        "(expected values from the reference semantics in this file); input_distribution.chain_family counts the lookups by the number of "
-                       "base-class steps to the nearest definition and the += by the distance to the inherited array")
+                       "base-class steps to the nearest definition and the += by the distance to the inherited array. "
+                       "Family 'held' (histories with config values KEPT across loads; the property speaks of the class a value denotes, for all "
+                       "histories of loads): loads 1..f, then a script obtains config values and keeps them (private variable / element of a private "
+                       "array / global variable / missionNamespace setVariable / element of a global array), observes them, and after EVERY further "
+                       "load (configparse__ inside the same script, or the parser API between two scripts the way a second sqfvm_load_config arrives "
+                       "between two sqfvm_call) observes them again, next to the value navigated afresh along the class's own path and `kept == fresh`. "
+                       "Kept: configFile, every class of the tree (<= 9) by its own path, value entries, entries reached through an inheriting class, "
+                       "the same classes as `parent select i`, `configHierarchy child select j`, `inheritsFrom derived`, `\"true\" configClasses parent "
+                       "select j`, one configNull. Observers per value: the ones above plus the configHierarchy of every class reached by repeating "
+                       "inheritsFrom (identifies the base class, not only its name) and the configHierarchy of `value >> name` for every name in play. "
+                       "Histories: every re-binding kind (re-opened with another base, a first base, the same base, no base clause, the same base NAME "
+                       "that a later load shadowed, a cycle-closing base (refused), an unresolvable base (base removed), the BASE re-bound, entries "
+                       "added / deleted / appended, the kept class deleted, the tree only grows by 1-40 classes) x nesting depth 0/1/2, with an optional "
+                       "third load, plus histories over the grammar (regular and wild), shadow and short-chain generators with >= 2 loads; the routes "
+                       "are taken in turn. Verdicts: no hang/crash; where the property text decides (reference semantics: a kept value denotes the "
+                       "class object whatever was loaded since; abstains when the text is silent or the kept entry was deleted) kept-value observations "
+                       "== reference; METAMORPHIC, implementation only, also where the text is silent on which base counts: kept value and fresh value "
+                       "of the same class (own entries all the way - re-opening merges) answer every observer alike and compare equal; implementation "
+                       "== extracted model (a config value is a container id, every operator reads the host of the moment it is applied; the model "
+                       "covers the behaviour - only the generator did not reach it before). An evaluation in this family = one observation of one "
+                       "kept value; input_distribution.held_family counts routes, scenarios, provenances, loads since kept, re-bindings since kept")
     run.cov["input_distribution"] = dict(kinds, **{k: v for k, v in stats.items()})
     run.cov["samples"] = samples
     run.cov["trusted_base"] = ["Coq 8.16.1 kernel (vm_compute only in the witness/example lemmas)",
                                "ExtrOcamlBasic extraction + ocaml/config_driver.ml (also prints values the way SQF str does)",
                                "harness/h_config.cpp + sqfrt.hpp + fork/watchdog plumbing",
                                "AST generator, renderer and reference semantics in checks/C15.py",
+                               "held family: the SQF text of the keeping/observing scripts and its instruction form for the model driver are generated "
+                               "side by side in checks/C15.py (HeldCase.plan); the SQF interpreter (variables, arrays, call, forEach, while, str) is trusted "
+                               "to carry config values unchanged - a defect there shows as a kept-vs-fresh difference",
                                "the config tokenizer and bison parser (tokenizer.hpp, parser.y) are NOT modelled: they are covered only by rendering "
                                "the generated AST to text and comparing the loaded host differentially (block comments are not generated: the "
                                "tokenizer leaves their closing */ in the stream)",
